@@ -559,14 +559,41 @@ func c08Differential(c *core.Ctx, mine func() bool) {
 				continue
 			}
 			c.Eval()
-			// a flipped bit may land in the filler bytes of the CBC padding, which carry no information: accepted with the very
-			// same content is then no failure; a cipher value that was cut or extended is malformed whatever it decrypts to
-			if e3 == nil && a3 != nil && !(tamper == 0 && alg != refenc.AES128GCM && so.Projection(a3) == so.Projection(a2) && e2 == nil) {
-				c.Violation("C08/tampered-ciphertext-accepted", "response with tampered ciphertext accepted ("+desc+")", map[string]any{"case": desc, "document": string(raw)})
+			// The reference decrypter decides what the tampered cipher value is: if it cannot be decrypted (length, padding
+			// beyond one block, authentication tag) it is malformed and must be refused; if it still decrypts - a flipped
+			// bit in the filler bytes of the CBC padding carries no information - acceptance with the very same content is
+			// no failure. (An appended whole block, possible for 3DES, falls under the same rule and not under chance.)
+			var refErr error
+			if ted := el.FindElement("//EncryptedData"); ted != nil {
+				_, refErr = refenc.Decrypt(fx.K("sp_rsa2048").RSA(), ted)
+			}
+			if e3 == nil && a3 != nil && (refErr != nil || alg == refenc.AES128GCM || so.Projection(a3) != so.Projection(a2) || e2 != nil) {
+				c.Violation("C08/tampered-ciphertext-accepted", "response with tampered ciphertext accepted ("+desc+")", map[string]any{"case": desc, "tamper": tamper, "reference": fmt.Sprint(refErr), "document": string(raw)})
 			} else if _, ok := e3.(*saml.InvalidResponseError); e3 != nil && !ok {
 				c.Violation("C08/tampered-ciphertext-error-type", fmt.Sprintf("%T", e3), nil)
 			} else {
 				c.Count("tampered_ciphertext_rejected_ok")
+			}
+		}
+		// a cipher value whose padding is longer than one block (xmlenc 5.2 allows 1..block size) is malformed although it
+		// "decrypts": the content in front of the padding is the untouched signed assertion, so only the padding rule
+		// stands between this input and acceptance
+		if alg != refenc.AES128GCM && r.Intn(4) == 0 {
+			extra := 1 + r.Intn(3)
+			if eo, err := o.EncryptOverlong(ael, fx.K("sp_rsa2048"), alg, tr.a, tr.d, extra); err == nil {
+				raw := build(eo)
+				var a4 *saml.Assertion
+				var e4 error
+				if pp, v, fr, _ := core.Guard(func() { a4, e4 = sp.ParseXMLResponse(raw, []string{"req-1"}, cur) }); pp {
+					c.Violation("C08/panic/"+fr+"/"+panicClass(v), "panic on overlong padding", map[string]any{"case": desc, "document": string(raw)})
+					continue
+				}
+				c.Eval()
+				if e4 == nil && a4 != nil {
+					c.Violation("C08/overlong-padding-accepted", fmt.Sprintf("cipher value with %d surplus block(s) of CBC padding accepted (%s)", extra, desc), map[string]any{"case": desc, "extra_blocks": extra, "document": string(raw)})
+				} else {
+					c.Count("overlong_padding_rejected_ok")
+				}
 			}
 		}
 		c.SampleSome(map[string]any{"case": desc, "accepted": e1 == nil})
